@@ -103,7 +103,7 @@ fn scn_oneshot(o: &Opts, tr: &mut Tr) {
                     let n = (t as i64 + delta).max(0) as usize;
                     let d = gen::data(kind, n, &mut r);
                     let zl = nb % 2 == 0;
-                    if oneshot_suspicious(&d, lvl, zl) {
+                    if oneshot_suspicious(&d, lvl, zl) && tr.take_suspicious_slot() {
                         oneshot_case(tr, &format!("bulk-{}-{}-l{}-{}", kind, n, lvl, zl), "C01", &d, lvl, zl, kind);
                     }
                     tr.bulk_run += 1;
@@ -117,8 +117,21 @@ fn scn_oneshot(o: &Opts, tr: &mut Tr) {
         let lvl = if i % 13 == 0 { r.gen() } else { (i % 11) as u8 };
         let d = gen::data(kind, n, &mut r);
         let zl = i % 2 == 0;
-        if oneshot_suspicious(&d, lvl, zl) {
+        if oneshot_suspicious(&d, lvl, zl) && tr.take_suspicious_slot() {
             oneshot_case(tr, &format!("bulkr-{}-{}-{}-l{}-{}", i, kind, n, lvl, zl), "C01", &d, lvl, zl, kind);
+        }
+        tr.bulk_run += 1;
+    }
+    // lazy parsing with more than one LZ block on poorly compressible data: the growing output
+    // vector is too small when the block is cut, so the call is suspended inside the LZ loop
+    for i in 0..(if o.thorough { 3000 } else { 500 }) {
+        let kind = ["litmatch", "lazycut", "sparse3", "lazycut"][i % 4];
+        let n = if kind == "lazycut" { 36_000 + r.gen_range(0..100_000) } else { 100_000 + r.gen_range(0..150_000) };
+        let lvl = 4 + (i % 7) as u8;
+        let d = gen::data(kind, n, &mut r);
+        let zl = i % 2 == 0;
+        if oneshot_suspicious(&d, lvl, zl) && tr.take_suspicious_slot() {
+            oneshot_case(tr, &format!("bulkl-{}-{}-{}-l{}-{}", i, kind, n, lvl, zl), "C01", &d, lvl, zl, kind);
         }
         tr.bulk_run += 1;
     }
@@ -360,7 +373,7 @@ fn scn_streamcomp(o: &Opts, tr: &mut Tr, prop: &str) {
     // where TLC judges it like any other
     let nbulk = if o.thorough { 5000 } else { 600 };
     for bi in 0..nbulk {
-        let kind = ["litmatch", "litmatch", "mixed", "text", "sparse3", "alpha4", "runs", "period3", "zeros", "wrapruns", "wrapruns"][bi % 11];
+        let kind = ["litmatch", "lazycut", "mixed", "text", "sparse3", "alpha4", "runs", "period3", "zeros", "wrapruns", "lazycut"][bi % 11];
         let size = [60_000usize, 130_000, 200_000, 90_000, 32_768, 65_536, 33_000][bi % 7] + r.gen_range(0..5000) * (bi % 3);
         let data = gen::data(kind, size, &mut r);
         let lvl = [4u8, 5, 6, 7, 8, 9, 10, 1, 2, 3, 0][bi % 11];
